@@ -19,6 +19,22 @@ def evidence_table():
     return '\n'.join(rows)
 
 
+def theorem_list():
+    out = []
+    for f in sorted(glob.glob(os.path.join(R, 'evidence', 'C*.json'))):
+        e = json.load(open(f)); c = e['coverage']
+        th = c.get('theorems', [])
+        out.append(f"* **{e['property_id']}** ({len(th)}): " + ', '.join(f'`{t}`' for t in th))
+        ex = c.get('extra') or {}
+        st = ex.get('source_translation') if isinstance(ex, dict) else None
+        st = st or (ex if isinstance(ex, dict) and 'translated' in ex else None)
+        if isinstance(st, dict) and st.get('theorems'):
+            ths = st['theorems'] if isinstance(st['theorems'], list) else []
+            if ths:
+                out.append(f"  source-translation statements ({len(ths)}): " + ', '.join(f'`{t}`' for t in ths))
+    return '\n'.join(out)
+
+
 def seeded_table():
     p = os.path.join(R, 'seeded', 'results.json')
     res = json.load(open(p)) if os.path.exists(p) else {}
@@ -77,6 +93,7 @@ def main():
     s10 = s10.replace('<!-- TABLE:seeded -->', seeded_table())
     s10 = s10.replace('<!-- KNOWNROWS -->', known_rows())
     s10 = s10.replace('<!-- FIXROWS -->', fix_rows())
+    s10 = s10.replace('<!-- THEOREMS -->', theorem_list())
     p = os.path.join(R, 'DESIGN.md')
     d = open(p).read()
     a = d.index('## A. Appendix')
